@@ -216,10 +216,10 @@ class VSeqSet:
 
 
 class VParities:
-    """immutable list of pairs (list of variables, int): a clause sequence and a parallel int array"""
+    """python list of pairs (list of variables X, int b): kept as the sequence of the augmented lists X + [b]"""
 
-    def __init__(self, xs, bs):
-        self.xs, self.bs = xs, bs          # CSeq term, Array Int Int
+    def __init__(self, aug):
+        self.aug = aug                     # CSeq term: element j is isnoc(X_j, b_j)
 
 
 class VRange:
@@ -603,7 +603,7 @@ class Engine:
         if ty == 'mclist':
             return VMList(self.fresh(base, specs.CSeq))
         if ty == 'paritylist':
-            return VParities(self.fresh(base + '_xs', specs.CSeq), self.fresh(base + '_bs', z3.ArraySort(z3.IntSort(), z3.IntSort())))
+            return VParities(self.fresh(base + '_aug', specs.CSeq))
         if ty == 'pairlist':
             n = self.fresh(base + '_len')
             self.pc.append(n >= 0)
@@ -836,6 +836,8 @@ class Engine:
             return VSink(v.trace)
         if isinstance(v, VSeqSet):
             return VSeqSet(v.arr)
+        if isinstance(v, VParities):
+            return VParities(v.aug)
         if isinstance(v, VArr):
             return VArr(v.length, v.arr)
         if isinstance(v, VArr2):
@@ -953,6 +955,9 @@ class Engine:
                 if isinstance(t, ast.Name) and self.frames[-1]['contract'].get('locals', {}).get(t.id) == 'mclist' \
                         and isinstance(v, VTuple) and not v.items:
                     v = VMList(specs.cnil)                         # declared: a growing list of clauses
+                if isinstance(t, ast.Name) and self.frames[-1]['contract'].get('locals', {}).get(t.id) == 'paritylist' \
+                        and isinstance(v, VTuple) and not v.items:
+                    v = VParities(specs.cnil)                      # declared: a growing list of (variables, bit) pairs
                 if isinstance(t, ast.Name) and self.frames[-1]['contract'].get('locals', {}).get(t.id) == 'seqset' \
                         and isinstance(v, VSet2):
                     v = VSeqSet(z3.K(specs.ISeq, z3.BoolVal(False)))   # declared: a set of tuples of ints
@@ -1208,6 +1213,9 @@ class Engine:
         if isinstance(v, VSeqSet):
             v.arr = self.fresh(name, specs.SeqSet)
             return v
+        if isinstance(v, VParities):
+            v.aug = self.fresh(name + '_aug', specs.CSeq)
+            return v
         if isinstance(v, VCounted):
             n = self.fresh(name + '_count')
             self.pc.append(n >= 0)
@@ -1432,9 +1440,9 @@ class Engine:
             t0 = it.term
             elem = lambda i: VTuple([specs.tcoef(t0, i), specs.tlit(t0, i)], 'tuple')
         elif isinstance(it, VParities):
-            niter = specs.clen(it.xs)
-            pxs, pbs = it.xs, it.bs
-            elem = lambda i: VTuple([VSeq(specs.cget(pxs, i)), z3.Select(pbs, i)], 'tuple')
+            niter = specs.clen(it.aug)
+            paug = it.aug
+            elem = lambda i: VTuple([VSeq(specs.ifront(specs.cget(paug, i))), specs.ilast(specs.cget(paug, i))], 'tuple')
         elif isinstance(it, VTextTable):
             niter = self.fresh('table_len')
             self.pc.append(niter >= 0)
@@ -1909,7 +1917,7 @@ class Engine:
                 r = o.fields[e.attr[:-3]]
                 return toz(r.lo) if e.attr.endswith('_lo') else toz(r.hi)
             return ('method', o, e.attr)
-        if isinstance(o, (VTuple, VMList, VArr, VSeq, VOpaque, VCounted, VArr2, VRow, VSet2, VStr, VStrs, VFmt, VSink, VSeqSet)) or isinstance(o, str):
+        if isinstance(o, (VTuple, VMList, VArr, VSeq, VOpaque, VCounted, VArr2, VRow, VSet2, VStr, VStrs, VFmt, VSink, VSeqSet, VParities)) or isinstance(o, str):
             return ('method', o, e.attr)
         if isinstance(o, tuple) and o[0] == 'global':
             return ('global', o[1] + '.' + e.attr)
@@ -2783,6 +2791,12 @@ class Engine:
             return VRowText(o, args[0].clause)
         if isinstance(o, str) and meth == 'join' and len(args) == 1 and isinstance(args[0], VFmt) and args[0].split and not o.startswith('<'):
             return VFmt(args[0].template, args[0].args, joined=(o, ''))
+        if isinstance(o, VParities):
+            if meth == 'append' and len(args) == 1 and isinstance(args[0], VTuple) and len(args[0].items) == 2 \
+                    and isinstance(args[0].items[0], VSeq) and args[0].items[0].sortname == 'ISeq':
+                o.aug = specs.csnoc(o.aug, specs.isnoc(args[0].items[0].term, toz(args[0].items[1])))
+                return None
+            raise Unsupported('method {} of a list of parities'.format(meth))
         if isinstance(o, VSeqSet):
             if meth == 'add' and len(args) == 1 and isinstance(args[0], VSeq) and args[0].sortname == 'ISeq':
                 o.arr = z3.Store(o.arr, args[0].term, z3.BoolVal(True))
@@ -3038,7 +3052,8 @@ SPEC_FUNCS = {
     'psat': _wrap(specs.psat), 'valid1': _wrap(specs.valid1), 'cvalid': _wrap(specs.cvalid), 'cdistinct': _wrap(specs.cdistinct),
     'cmem': _wrap(specs.cmem), 'csubsel': _wrap(specs.csubsel),
     'setof': lambda eng, node, L: VSeqSet(specs.cset(_term(L))),
-    'pxs': lambda eng, node, v: VSeq(v.xs), 'pbs': lambda eng, node, v: VArr(specs.clen(v.xs), v.bs),
+    'isnoc': _wrap(specs.isnoc), 'paug': lambda eng, node, v: VSeq(v.aug), 'ifront': _wrap(specs.ifront), 'ilast': _wrap(specs.ilast),
+    'valid1x': _wrap(specs.valid1x), 'cvalidx': _wrap(specs.cvalidx), 'psatx': _wrap(specs.psatx),
     'evrow': sf_evrowt, 'rowapp': _wrap(specs.rowapp), 'rowsfrom': _wrap(specs.rowsfrom),
     'nonnone': sf_nonnone,
     'pairsof': lambda eng, node, A, B, n: VPairs(toz(n), as_arr(A).arr, as_arr(B).arr),
@@ -3107,6 +3122,8 @@ Engine.ev_Name = _ev_name_patch(Engine.ev_Name)
 
 # builtins ---------------------------------------------------------------------------
 def b_len(eng, node, v):
+    if isinstance(v, VParities):
+        return specs.clen(v.aug)
     if isinstance(v, VOpaque):
         n = eng.fresh('opaque_len')           # a container the contract does not look into: some length
         eng.pc.append(n >= 0)
@@ -3191,7 +3208,7 @@ b_allany_raw.raw = True
 def b_list(eng, node, v=None):
     if v is None:
         return VTuple([], 'list')
-    if isinstance(v, VDom):
+    if isinstance(v, (VDom, VParities)):
         return v
     if isinstance(v, VTuple):
         return VTuple(list(v.items), 'list')
@@ -3621,6 +3638,14 @@ def lib_random_sample(eng, node, pop, k):
                                 patterns=[specs.iget(r.term, i)]))
         eng.pc.append(z3.ForAll([i, j], z3.Implies(z3.And(0 <= i, i < j, j < kk), specs.iget(r.term, i) != specs.iget(r.term, j))))
         r.distinct_in = (lo, hi)
+        return r
+    if isinstance(pop, VParities):
+        F, mm = pop.aug, toz(k)
+        if eng.branch(z3.Or(mm > specs.clen(F), mm < 0)):
+            eng.oblige('hazard', 'random.sample: 0 <= k <= len(population)', False, node.lineno)
+            raise PyExc('ValueError', node.lineno)
+        r = VParities(eng.fresh('sample', specs.CSeq))
+        eng.pc.append(z3.And(specs.clen(r.aug) == mm, specs.csubsel(r.aug, F)))
         return r
     if isinstance(pop, (VSeq, VMList)) and pop.term.sort() == specs.CSeq:
         # m clauses of the list, at pairwise distinct positions
